@@ -195,4 +195,177 @@ theorem invalid_language_iff (munch : List Char → List Char) (inp : Input) :
       simp only [hv, hve, if_false]
       exact (fieldRules_invalid munch v).2 hn
 
+
+/-! ### the remaining tags -/
+
+theorem fieldRules_encoding (munch : List Char → List Char) (v : List Char) :
+    hasName "encoding-in-language-header-field" (fieldRules munch v) ↔ ∃ l, candidate munch v = some l ∧ l.enc.isSome = true := by
+  unfold fieldRules
+  simp only [hasName_append]
+  constructor
+  · rintro (h | h)
+    · split at h <;> simp [hasName, tag] at h
+    · split at h
+      · simp [hasName] at h
+      · rename_i l hl
+        simp only [hasName_append, hasName_when] at h
+        rcases h with (h | h) | h
+        · exact ⟨l, hl, h.1⟩
+        · simp [tag] at h
+        · split at h
+          · simp [hasName, tag] at h
+          · simp [hasName_when, tag] at h
+  · rintro ⟨l, hl, he⟩
+    right
+    simp only [hl, hasName_append, hasName_when]
+    left; left
+    exact ⟨he, rfl⟩
+
+theorem fieldRules_variant (munch : List Char → List Char) (v : List Char) :
+    hasName "language-variant-does-not-affect-translation" (fieldRules munch v) ↔
+      ∃ l, candidate munch v = some l ∧ l.mod = some "euro".toList := by
+  unfold fieldRules
+  simp only [hasName_append]
+  constructor
+  · rintro (h | h)
+    · split at h <;> simp [hasName, tag] at h
+    · split at h
+      · simp [hasName] at h
+      · rename_i l hl
+        simp only [hasName_append, hasName_when] at h
+        rcases h with (h | h) | h
+        · simp [tag] at h
+        · exact ⟨l, hl, by simpa using h.1⟩
+        · split at h
+          · simp [hasName, tag] at h
+          · simp [hasName_when, tag] at h
+  · rintro ⟨l, hl, he⟩
+    right
+    simp only [hl, hasName_append, hasName_when]
+    left; right
+    exact ⟨by simpa using he, rfl⟩
+
+/-- the other parts of the verdict never carry a field-only tag name -/
+theorem verdict_field_only (munch : List Char → List Char) (inp : Input) (n : String)
+    (hn : n = "encoding-in-language-header-field" ∨ n = "language-variant-does-not-affect-translation") :
+    hasName n (verdictTags munch inp) ↔
+      inp.isTemplate = false ∧ ∃ v, fieldValue inp.metaLanguages = some v ∧ v ≠ [] ∧ hasName n (fieldRules munch v) := by
+  unfold verdictTags
+  by_cases ht : inp.isTemplate = true
+  · rcases hn with rfl | rfl <;> simp [ht, hasName_append, hasName_when, tag]
+  · have ht' : inp.isTemplate = false := by simpa using ht
+    simp only [ht', Bool.false_eq_true, if_false, hasName_append, hasName_when, true_and, or_assoc]
+    constructor
+    · intro h
+      rcases h with h | h | h | h | h | h | h
+      · rcases hn with rfl | rfl <;> simp [tag] at h
+      · split at h
+        · simp [hasName] at h
+        · rename_i v hv
+          split at h
+          · simp [hasName] at h
+          · rename_i hve
+            exact ⟨v, hv, hve, h⟩
+      · split at h
+        · rcases hn with rfl | rfl <;> simp [hasName_when, tag, disparity] at h
+        · simp [hasName] at h
+      · rcases hn with rfl | rfl <;> simp [tag] at h
+      · rcases hn with rfl | rfl <;> simp [tag] at h
+      · split at h
+        · simp [hasName] at h
+        · split at h
+          · rcases hn with rfl | rfl <;> simp [hasName, tag] at h
+          · split at h
+            · simp [hasName] at h
+            · rcases hn with rfl | rfl <;> simp [hasName_when, tag, disparity] at h
+      · split at h
+        · rcases hn with rfl | rfl <;> simp [hasName_append, hasName_when, hasName_single, tag] at h
+        · rcases hn with rfl | rfl <;> simp [hasName_when, tag] at h
+    · rintro ⟨v, hv, hve, h⟩
+      right; left
+      simp only [hv, hve, if_false]
+      exact h
+
+/-- `unknown-poedit-language` iff X-Poedit-Language is consulted and names no language -/
+theorem unknown_poedit_iff (munch : List Char → List Char) (inp : Input) :
+    hasName "unknown-poedit-language" (verdictTags munch inp) ↔
+      inp.isTemplate = false ∧ ∃ p, poeditValue inp = some p ∧ named munch p = none := by
+  unfold verdictTags
+  by_cases ht : inp.isTemplate = true
+  · simp [ht, hasName_append, hasName_when, tag]
+  · have ht' : inp.isTemplate = false := by simpa using ht
+    simp only [ht', Bool.false_eq_true, if_false, hasName_append, hasName_when, true_and, or_assoc]
+    constructor
+    · intro h
+      rcases h with h | h | h | h | h | h | h
+      · simp [tag] at h
+      · split at h
+        · simp [hasName] at h
+        · split at h
+          · simp [hasName] at h
+          · exact absurd h (fieldRules_names munch _ _ (by decide) (by decide) (by decide))
+      · split at h
+        · simp [hasName_when, tag, disparity] at h
+        · simp [hasName] at h
+      · simp [tag] at h
+      · simp [tag] at h
+      · split at h
+        · simp [hasName] at h
+        · rename_i p hp
+          split at h
+          · rename_i hn; exact ⟨p, hp, hn⟩
+          · split at h
+            · simp [hasName] at h
+            · simp [hasName_when, tag, disparity] at h
+      · split at h
+        · simp [hasName_append, hasName_when, hasName_single, tag] at h
+        · simp [hasName_when, tag] at h
+    · rintro ⟨p, hp, hn⟩
+      right; right; right; right; right; left
+      simp [hp, hn, hasName, tag]
+
+/-- `no-language-header-field` iff (template) there is no single value, or (otherwise) the value is absent or empty and the
+    field does not occur with conflicting values -/
+theorem no_language_header_field_iff (munch : List Char → List Char) (inp : Input) :
+    hasName "no-language-header-field" (verdictTags munch inp) ↔
+      (if inp.isTemplate then (fieldValue inp.metaLanguages).isNone = true else fieldAbsent inp.metaLanguages = true) := by
+  unfold verdictTags
+  by_cases ht : inp.isTemplate = true
+  · simp [ht, hasName_append, hasName_when, tag]
+  · have ht' : inp.isTemplate = false := by simpa using ht
+    simp only [ht', Bool.false_eq_true, if_false, hasName_append, hasName_when, true_and, or_assoc]
+    constructor
+    · intro h
+      rcases h with h | h | h | h | h | h | h
+      · simp [tag] at h
+      · split at h
+        · simp [hasName] at h
+        · split at h
+          · simp [hasName] at h
+          · exact absurd h (fieldRules_names munch _ _ (by decide) (by decide) (by decide))
+      · split at h
+        · simp [hasName_when, tag, disparity] at h
+        · simp [hasName] at h
+      · simp [tag] at h
+      · simp [tag] at h
+      · split at h
+        · simp [hasName] at h
+        · split at h
+          · simp [hasName, tag] at h
+          · split at h
+            · simp [hasName] at h
+            · simp [hasName_when, tag, disparity] at h
+      · split at h
+        · simp only [hasName_append, hasName_when, hasName_single] at h
+          rcases h with h | h
+          · exact h.1
+          · simp [tag] at h
+        · simp only [hasName_when] at h
+          exact h.1
+    · intro h
+      right; right; right; right; right; right
+      split
+      · simp [hasName_append, hasName_when, h, tag]
+      · simp [hasName_when, h, tag]
+
 end I18n.Locale
